@@ -1,4 +1,5 @@
 import DaskModel.Model.Order
+import DaskModel.Lemmas.OrderFrame
 /-!
 # C06 — static task ordering is a total order consistent with dependencies
 
@@ -6,9 +7,10 @@ import DaskModel.Model.Order
 * a **proved checker**: `validOrder g p = true ↔ ValidOrder g p` where `ValidOrder` is literally the statement
   (a priority for each key of the graph and for no other key, pairwise distinct, greater than the priorities of all
   dependencies inside the graph); every real `order` output of the correspondence run goes through the compiled checker;
-* the **frame** around the heuristic core after the `fix:` commit (stripped non-task leaves get
-  `expected_len - 1 - n_removed_leaves`): these priorities are pairwise distinct and above every core priority
-  (`stripPrio_inj`, `stripPrio_gt_core`, `stripPrio_later_lt`).
+* the **frame** around the heuristic core after the `fix:` commit, proved about a transliteration of the
+  normalisation loop (`strip`): `order_frame_valid` — stripped non-task leaves at `expected_len - 1 - j` plus *any* core
+  that emits the remaining internal keys once and dependencies-first (`CoreOK`) give a `ValidOrder`; ingredients
+  `strip_inv` (every dependent of a stripped leaf was stripped before it), `stripPrio_*`.
 -/
 namespace Dask.C06
 open Dask.GraphAlg Dask.Order
@@ -156,6 +158,152 @@ theorem stripPrio_later_lt {n i j : Nat} (hij : i < j) (hj : j < n) : stripPrio 
 theorem old_formula_collides : ∃ n s j c, j < s ∧ s ≤ n ∧ c < n - s ∧ (n - j) - 1 - j = c :=
   ⟨5, 2, 1, 2, by decide, by decide, by decide, by decide⟩
 
+
+/-! ### the frame theorem: stripped leaves + any well-behaved core give a valid order -/
+
+theorem mem_filter_keys (g : Graph) (ext : List Key) (k : Key) :
+    k ∈ (g.filter (fun e => !ext.contains e.1)).map Prod.fst ↔ k ∈ g.map Prod.fst ∧ k ∉ ext := by
+  simp only [List.mem_map, List.mem_filter, Bool.not_eq_true', List.contains_eq_mem, decide_eq_false_iff_not]
+  constructor
+  · rintro ⟨e, ⟨h1, h2⟩, rfl⟩; exact ⟨⟨e, h1, rfl⟩, h2⟩
+  · rintro ⟨⟨e, h1, rfl⟩, h2⟩; exact ⟨e, ⟨h1, h2⟩, rfl⟩
+
+theorem depsOf_of_mem (g : Graph) (hn : (g.map Prod.fst).Nodup) : ∀ k ds, (k, ds) ∈ g → depsOf g k = ds := by
+  induction g with
+  | nil => intro k ds h; simp at h
+  | cons e rest ih =>
+    obtain ⟨k0, ds0⟩ := e
+    intro k ds h
+    simp only [List.map_cons, List.nodup_cons] at hn
+    rcases List.mem_cons.mp h with h1 | h2
+    · cases h1; simp [depsOf, List.lookup]
+    · have hne : (k == k0) = false := by
+        rw [Bool.eq_false_iff]; intro hc
+        have hkk : k = k0 := by simpa using hc
+        exact hn.1 (List.mem_map.mpr ⟨(k, ds), h2, hkk⟩)
+      have := ih hn.2 k ds h2
+      simp only [depsOf, List.lookup, hne] at this ⊢
+      exact this
+
+/-- **The frame is correct.** Whatever the heuristic core does, as long as it emits every remaining internal key once
+    and after its dependencies (`CoreOK`, checked on every real output through `validOrder`), the priorities that
+    `order` returns — stripped non-task leaves at `expected_len - 1 - j`, core keys at `0, 1, …`, external keys
+    deleted — satisfy the statement. `g` lists the dependencies of every key of `dsk` after the external keys were
+    added as data nodes; `ext` are those external keys. -/
+theorem order_frame_valid (g : Graph) (isTask : Key → Bool) (ext core : List Key)
+    (hn : (g.map Prod.fst).Nodup) (hext : ∀ e ∈ ext, depsOf g e = [])
+    (hc : CoreOK g ext (strip g isTask).stripped core) :
+    ValidOrder (g.filter (fun e => !ext.contains e.1))
+      (framePrios g.length (strip g isTask).stripped core) := by
+  have hi := strip_inv g isTask hn
+  have ff := frame_facts g isTask ext core hn hc
+  have hSkeys : ∀ x ∈ (strip g isTask).stripped, x ∈ g.map Prod.fst :=
+    fun x hx => hi.removedKeys x (hi.strippedRemoved x hx)
+  have hSext : ∀ x ∈ (strip g isTask).stripped, x ∉ ext := by
+    intro x hx he
+    have := hi.strippedDeps x hx
+    rw [hext x he] at this; simp at this
+  -- every key of the dict is a stripped leaf or a core key, with a known priority
+  have hcase : ∀ k a, (framePrios g.length (strip g isTask).stripped core).lookup k = some a →
+      (∃ A B, (strip g isTask).stripped = A ++ k :: B ∧ a = stripPrio g.length A.length) ∨
+      (∃ A B, core = A ++ k :: B ∧ a = A.length ∧ k ∉ (strip g isTask).stripped) := by
+    intro k a hl
+    have hk : k ∈ (framePrios g.length (strip g isTask).stripped core).map Prod.fst :=
+      List.mem_map.mpr ⟨(k, a), lookup_mem_of_some hl, rfl⟩
+    rw [ff.keys] at hk
+    rcases List.mem_append.mp hk with h | h
+    · obtain ⟨A, B, hs, _⟩ := exists_first_occurrence _ k h
+      have := ff.lookS A k B hs
+      rw [hl] at this
+      exact Or.inl ⟨A, B, hs, by simpa using this⟩
+    · obtain ⟨A, B, hs, _⟩ := exists_first_occurrence _ k h
+      have := ff.lookC A k B hs
+      rw [hl] at this
+      exact Or.inr ⟨A, B, hs, by simpa using this, ((hc.dom k).mp h).2.1⟩
+  have hlenS : ∀ A k B, (strip g isTask).stripped = A ++ k :: B → A.length < (strip g isTask).stripped.length := by
+    intro A k B h; rw [h]; simp
+  have hlenC : ∀ A k B, core = A ++ k :: B → A.length < core.length := by
+    intro A k B h; rw [h]; simp
+  refine ⟨?_, ?_, ?_, ?_⟩
+  · -- domain
+    intro k
+    rw [ff.keys, mem_filter_keys, List.mem_append]
+    constructor
+    · rintro (h | h)
+      · exact ⟨hSkeys k h, hSext k h⟩
+      · exact ⟨((hc.dom k).mp h).1, ((hc.dom k).mp h).2.2⟩
+    · rintro ⟨h1, h2⟩
+      by_cases hs : k ∈ (strip g isTask).stripped
+      · exact Or.inl hs
+      · exact Or.inr ((hc.dom k).mpr ⟨h1, hs, h2⟩)
+  · rw [ff.keys]; exact ff.nodup
+  · -- pairwise distinct
+    intro k k' a hk hk'
+    rcases hcase k a hk with ⟨A, B, hs, ha⟩ | ⟨A, B, hs, ha, hns⟩ <;>
+      rcases hcase k' a hk' with ⟨A', B', hs', ha'⟩ | ⟨A', B', hs', ha', hns'⟩
+    · have h1 := hlenS A k B hs
+      have h2 := hlenS A' k' B' hs'
+      have hle := ff.len
+      have : A.length = A'.length := by unfold stripPrio at ha ha'; omega
+      exact split_same_length (hs ▸ hs') this
+    · exfalso
+      have h1 := hlenS A k B hs
+      have h2 := hlenC A' k' B' hs'
+      have hle := ff.len
+      unfold stripPrio at ha; omega
+    · exfalso
+      have h1 := hlenC A k B hs
+      have h2 := hlenS A' k' B' hs'
+      have hle := ff.len
+      unfold stripPrio at ha'; omega
+    · have : A.length = A'.length := by omega
+      exact split_same_length (hs ▸ hs') this
+  · -- dependencies first
+    intro k ds hkds d hd hdg
+    have hkg : (k, ds) ∈ g := (List.mem_filter.mp hkds).1
+    have hdeps : depsOf g k = ds := depsOf_of_mem g hn k ds hkg
+    have hkk : k ∈ g.map Prod.fst := List.mem_map.mpr ⟨(k, ds), hkg, rfl⟩
+    have hkext : k ∉ ext := by
+      have := (List.mem_filter.mp hkds).2
+      simpa using this
+    have hdk := (mem_filter_keys g ext d).mp hdg
+    have hdd : d ∈ depsOf g k := hdeps ▸ hd
+    have hle := ff.len
+    by_cases hks : k ∈ (strip g isTask).stripped
+    · obtain ⟨A, B, hs, _⟩ := exists_first_occurrence _ k hks
+      have hlk := ff.lookS A k B hs
+      have h1 := hlenS A k B hs
+      by_cases hds : d ∈ (strip g isTask).stripped
+      · -- both stripped: the dependent `k` was stripped before `d`
+        obtain ⟨A', B', hs', _⟩ := exists_first_occurrence _ d hds
+        have hkA' : k ∈ A' := hi.before A' d B' hs' k hkk hdd
+        obtain ⟨A1, A2, hA', _⟩ := exists_first_occurrence A' k hkA'
+        have hs'' : (strip g isTask).stripped = A1 ++ k :: (A2 ++ d :: B') := by rw [hs', hA']; simp
+        have hAA : A = A1 := split_nodup_unique hi.strippedNodup hs hs''
+        have h2 := hlenS A' d B' hs'
+        refine ⟨_, _, ff.lookS A' d B' hs', hlk, ?_⟩
+        have : A.length < A'.length := by rw [hAA, hA']; simp
+        exact stripPrio_later_lt this (by omega)
+      · -- `d` is a core key: below every stripped leaf
+        have hdc : d ∈ core := (hc.dom d).mpr ⟨hdk.1, hds, hdk.2⟩
+        obtain ⟨A', B', hs', _⟩ := exists_first_occurrence _ d hdc
+        have h2 := hlenC A' d B' hs'
+        refine ⟨_, _, ff.lookC A' d B' hs', hlk, ?_⟩
+        unfold stripPrio; omega
+    · have hkc : k ∈ core := (hc.dom k).mpr ⟨hkk, hks, hkext⟩
+      have hds : d ∉ (strip g isTask).stripped := by
+        intro hds
+        obtain ⟨A', B', hs', _⟩ := exists_first_occurrence _ d hds
+        have hkA' : k ∈ A' := hi.before A' d B' hs' k hkk hdd
+        exact hks (by rw [hs']; exact List.mem_append_left _ hkA')
+      have hdc : d ∈ core := (hc.dom d).mpr ⟨hdk.1, hds, hdk.2⟩
+      obtain ⟨pre, post, hcs, _⟩ := exists_first_occurrence _ k hkc
+      have hdpre : d ∈ pre := hc.topo pre k post hcs d hdd hdc
+      obtain ⟨P1, P2, hP, _⟩ := exists_first_occurrence pre d hdpre
+      have hcs' : core = P1 ++ d :: (P2 ++ k :: post) := by rw [hcs, hP]; simp
+      refine ⟨_, _, ff.lookC P1 d _ hcs', ff.lookC pre k post hcs, ?_⟩
+      rw [hP]; simp
+
 /-! ### non-vacuity -/
 
 /-- the repaired answer for `{a,b,c: tasks, L1:[a,b], L2:[b,c]}` (keys a,b,c,L1,L2 = 0..4) is accepted … -/
@@ -164,6 +312,13 @@ example : validOrder [(0, []), (1, []), (2, []), (3, [0, 1]), (4, [1, 2])] [(3, 
 /-- … the answer of the unrepaired code is rejected (duplicate priority 2, `L2` not after `c`/`a`) -/
 example : validOrder [(0, []), (1, []), (2, []), (3, [0, 1]), (4, [1, 2])] [(3, 4), (4, 2), (2, 0), (1, 1), (0, 2)] = false := by
   decide
+/-- the normalisation loop on the same graph strips `L1` then `L2`, and the frame with the core order `c, b, a` is the
+    repaired answer -/
+example : (strip [(0, []), (1, []), (2, []), (3, [0, 1]), (4, [1, 2])] (fun k => decide (k < 3))).stripped = [3, 4] := by
+  decide
+example : framePrios 5 [3, 4] [2, 1, 0] = [(3, 4), (4, 3), (2, 0), (1, 1), (0, 2)] := by decide
+/-- a shared data root is removed (and a leaf that thereby drops to one dependency is *not* stripped) -/
+example : (strip [(0, []), (1, [0]), (2, [0, 1]), (3, [0, 2])] (fun k => decide (k = 1))).stripped = [3] := by decide
 /-- dependencies on keys outside the graph are ignored -/
 example : validOrder [(0, [7]), (1, [0, 9])] [(0, 0), (1, 1)] = true := by decide
 
